@@ -4,6 +4,7 @@ package harness
 // (virtual time). See DESIGN.md §2.2.
 
 import (
+	"github.com/NYTimes/gziphandler"
 	"encoding/json"
 	"fmt"
 	"net/http"
@@ -39,6 +40,7 @@ type rigOpts struct {
 	UpgradeTimeout time.Duration
 	AcceptAny      bool
 	Adapter        adapter.Creator
+	Gzip           bool // the server sits behind a compression middleware (NYTimes/gziphandler, the one the repository's go.mod names)
 	SlowJoin       int // wrap the adapter: every AddAll (a socket joining rooms, including its own at admission) yields the processor this many times first
 }
 
@@ -120,7 +122,19 @@ func newRig(o rigOpts) *rig {
 	if err := r.Server.Run(); err != nil {
 		panic("rig: server.Run: " + err.Error())
 	}
-	r.hs = &http.Server{Handler: r.Server}
+	var h http.Handler = r.Server
+	if o.Gzip {
+		// long-polling requests only: a WebSocket handshake must not pass through a compressing writer
+		plain, zipped := h, gziphandler.GzipHandler(h)
+		h = http.HandlerFunc(func(w http.ResponseWriter, req *http.Request) {
+			if req.URL.Query().Get("transport") == "polling" {
+				zipped.ServeHTTP(w, req)
+				return
+			}
+			plain.ServeHTTP(w, req)
+		})
+	}
+	r.hs = &http.Server{Handler: h}
 	go r.hs.Serve(r.Net)
 	return r
 }
